@@ -266,6 +266,10 @@ def run_sequence(ds, items, ops, sig="C08"):
             labels.append("empty-result")
         labels.append(f)
         applied += 1
+        if op.get("keep_input") and not in_place:
+            # the caller looked at the result and goes on working with the dataset it had (which the filter must have left alone)
+            labels.append("kept-input")
+            continue
         ds, items = res, new_items
     return applied, interesting, labels, ds, items
 
@@ -425,11 +429,20 @@ def _case(draw, n_hi, max_ops):
     ops = draw(st.lists(_op(n, len(items)), min_size=1, max_size=max_ops))
     out = []
     for op in ops:
+        if draw(st.integers(0, 3)) == 0:
+            op["keep_input"] = True
         out.append(op)
         if draw(st.integers(0, 4)) == 0:
             out.append(dict(op))  # the same filter with the same arguments, twice in a row
         if draw(st.integers(0, 5)) == 0:
             out.append({"f": draw(st.sampled_from(["inplace-reverse", "inplace-extend", "inplace-drop", "inplace-assign"])), "params": {"k": draw(st.integers(0, 3))}})
+    if draw(st.integers(0, 2)) == 0:
+        # the same filter asked of one dataset object before and after the caller edited that object
+        f1 = draw(_op(n, len(items)).filter(lambda o: o["f"] not in ("collect_generation_meta",)))
+        f2 = dict(f1) if draw(st.booleans()) else draw(_op(n, len(items)))
+        f1 = dict(f1, keep_input=True)
+        edit = {"f": draw(st.sampled_from(["inplace-reverse", "inplace-extend", "inplace-drop", "inplace-assign"])), "params": {"k": draw(st.integers(0, 3))}}
+        out = [f1, edit, f2] + out[:2]
     return {"n": n, "items": items, "meta": draw(st.sampled_from(["per-maze", "per-maze", "none"])), "ops": out}
 
 
